@@ -145,6 +145,21 @@ def run(tier):
         for us in users:
             cases.append(("fu%d" % kf, fd + us, "faulty-declaration-with-users")); kf += 1
             cases.append(("fu%d" % kf, us + fd, "faulty-declaration-with-users")); kf += 1
+    # written types of every shape to depth 2 (and a few deeper ones) at every declaration position: a sample of
+    # C11's type-legality programs - whatever the verdict, no stage may fail on them
+    from .. import gen_legal
+    lrng = random.Random(ck.seed + 2011)
+    lall = [(pos, t) for pos in gen_legal.positions() for t in gen_legal.types(2)]
+    for kl2, (pos, t) in enumerate(lrng.sample(lall, min(len(lall), 700 if tier == "quick" else 20000))):
+        cases.append(("tl%d" % kl2, gen_legal.program(pos, t)[0], "written-types"))
+    for kd, ty in enumerate(["&&void", "&&&void", "&&(i32)", "&&[:]i32", "&(&void)", "[2]&&void", "&&[..]void", "&[]&void", "(&&void)"]):
+        cases.append(("td%d" % kd, "fn foo(x: %s)\n{\n}\nfn main()\n{\n\tvar n: usize = |:%s|;\n}\n" % (ty, ty), "written-types"))
+    # an erroneous operand inside every expression form: its diagnostic must survive (an operand whose type is
+    # unknown makes the enclosing form fail without a diagnostic of its own)
+    forms = ["cast q", "q as u8", "-q", "!q", "(q)", "q + 1", "1 + q", "q[0]", "arr[q]", "f(q)", "f(cast q)", "[q, 1]", "S { m: q }", "|q|", "&q", "cast &q", "q.m", "(cast q) as u8", "f(-q)"]
+    for kq, form in enumerate(forms):
+        for ctx in ("var p: &u8 = %s;", "var p = %s;", "p2 = %s;", "f(%s);", "if %s == 1\n\t{\n\t}"):
+            cases.append(("eo%d.%d" % (kq, len(cases)), "struct S\n{\n\tm: i32,\n}\nfn f(x: i32) -> i32\n{\n\treturn: x\n}\nfn main()\n{\n\tvar arr: [2]i32 = [1, 2];\n\tvar p2: i32 = 0;\n\t%s\n}\n" % (ctx % form), "erroneous-operands"))
     # deep nesting within the stated bound (depth <= 256)
     for d in (32, 128, 256):
         cases.append(("n%da" % d, "fn main() -> i32\n{\n\treturn: " + "(" * d + "1" + ")" * d + "\n}\n", "nesting"))
